@@ -460,7 +460,7 @@ def cut(interp, t, a, base='piece'):
         sv = t.as_string()
         return z3.StringVal(sv[:a.as_long()]), z3.StringVal(sv[a.as_long():])
     decs = _decomps(interp, t)
-    for pieces in decs:
+    for pieces in reversed(decs):       # newest (most refined / most recently learned) first
         off = z3.IntVal(0)
         offs = [off]
         for p in pieces:
